@@ -653,6 +653,10 @@ func (e *codecEval) step(ins ssa.Instruction) {
 		e.call(x)
 	case *ssa.Return:
 		for _, rv := range x.Results {
+			// a list of records ([][]byte) whose first element is the encoded structure (continuation areas follow)
+			if first := firstOfRecordList(rv, 0); first != nil {
+				rv = first
+			}
 			if wn, ok := e.win(rv); ok && !wn.b.input {
 				dup := false
 				for _, o := range e.res.out {
@@ -1197,6 +1201,48 @@ func runCodecFamily(w *World, r *Report, rule string, pairs []codecPair) {
 				}
 			}
 		}
+		// ISO9660 both-endian numbers: a big-endian run that directly follows a little-endian run of the same width is
+		// the second half of one both-endian field, so both halves carry the same field (the parser reads only one half;
+		// an independent reader may read the other). The type-M path table locations are big-endian only by specification.
+		if cp.encPkg == pISO {
+			single := func(p int) (*types.Var, int, bool) {
+				var f *types.Var
+				sig := -2
+				for _, v := range cells[p] {
+					if v.f == nil {
+						continue
+					}
+					if f != nil && (!sameField(f, v.f) || sig != v.sig) {
+						return nil, 0, false
+					}
+					f, sig = v.f, v.sig
+				}
+				return f, sig, f != nil && sig >= 0
+			}
+			for _, n := range []int{2, 4} {
+				for start := range cells {
+					// little-endian run [start, start+n) followed by big-endian run [start+n, start+2n)
+					le, _, lok := single(start)
+					be, _, bok := single(start + n)
+					if !lok || !bok {
+						continue
+					}
+					okRun := true
+					for k := 0; k < n; k++ {
+						f1, s1, o1 := single(start + k)
+						f2, s2, o2 := single(start + n + k)
+						if !o1 || !o2 || !sameField(f1, le) || !sameField(f2, be) || s1 != k || s2 != n-1-k {
+							okRun = false
+						}
+					}
+					if !okRun || sameField(le, be) || strings.Contains(be.Name(), "pathTableM") {
+						continue
+					}
+					r.Fail(rule, fnName(enc), fmt.Sprintf("%s: both-endian halves at %d carry one field", cp.name, start), w.relFile(enc.Pos()),
+						fmt.Sprintf("bytes [%d:%d) hold %s little-endian and the following bytes [%d:%d) hold %s big-endian: the two halves of a both-endian number disagree, so a reader of the other half sees a different value", start, start+n, le.Name(), start+n, start+2*n, be.Name()))
+				}
+			}
+		}
 		for n := range fieldsOK {
 			st.Fields = append(st.Fields, n)
 		}
@@ -1292,7 +1338,7 @@ var codecPairsC07 = []codecPair{
 var codecPairsC06 = []codecPair{
 	cp("primary volume descriptor", pISO, "primaryVolumeDescriptor", "toBytes", pISO, "", "parsePrimaryVolumeDescriptor", 600),
 	cp("supplementary volume descriptor", pISO, "supplementaryVolumeDescriptor", "toBytes", pISO, "", "parseSupplementaryVolumeDescriptor", 600),
-	cp("directory record", pISO, "directoryEntry", "toBytes", pISO, "", "dirEntryFromBytesWithJoliet", 0),
+	cp("directory record", pISO, "directoryEntry", "toBytes", pISO, "", "dirEntryFromBytesWithJoliet", 14),
 }
 
 var codecPairsC05 = []codecPair{
@@ -1300,4 +1346,56 @@ var codecPairsC05 = []codecPair{
 	cp("ext4 group descriptor", pE4, "groupDescriptor", "toBytes", pE4, "", "groupDescriptorFromBytes", 44),
 	cp("ext4 inode", pE4, "inode", "toBytes", pE4, "", "inodeFromBytes", 100),
 	cp("ext4 directory entry", pE4, "directoryEntry", "toBytes", pE4, "", "directoryEntryFromBytes", 4),
+}
+
+
+// firstOfRecordList: v is a [][]byte built in the function as a literal (possibly appended to): the value stored as
+// its element 0.
+func firstOfRecordList(v ssa.Value, depth int) ssa.Value {
+	if depth > 6 || v == nil {
+		return nil
+	}
+	sl, ok := v.Type().Underlying().(*types.Slice)
+	if !ok || !isByteSlice(sl.Elem()) {
+		return nil
+	}
+	switch x := v.(type) {
+	case *ssa.Slice:
+		al, ok := x.X.(*ssa.Alloc)
+		if !ok {
+			return nil
+		}
+		for _, ref := range *al.Referrers() {
+			ia, ok := ref.(*ssa.IndexAddr)
+			if !ok {
+				continue
+			}
+			if k, isC := constInt(ia.Index); !isC || k != 0 {
+				continue
+			}
+			for _, u := range *ia.Referrers() {
+				if st, ok := u.(*ssa.Store); ok && st.Addr == ssa.Value(ia) {
+					return st.Val
+				}
+			}
+		}
+	case *ssa.Call:
+		if b, ok := x.Call.Value.(*ssa.Builtin); ok && b.Name() == "append" && len(x.Call.Args) > 0 {
+			return firstOfRecordList(x.Call.Args[0], depth+1)
+		}
+	case *ssa.Phi:
+		var found ssa.Value
+		for _, e := range x.Edges {
+			f := firstOfRecordList(e, depth+1)
+			if f == nil {
+				return nil
+			}
+			if found != nil && found != f {
+				return nil
+			}
+			found = f
+		}
+		return found
+	}
+	return nil
 }
